@@ -13,7 +13,7 @@ from monkeytype.cli import apply_stub_using_libcst
 from runtime.harness import Harness
 
 SHAPES = "class Circle:\n    pass\n\nclass Square:\n    pass\n\nSIDE = 4\n"
-OTHER = "class Thing:\n    pass\n"
+OTHER = "class Thing:\n    pass\n\n\nclass Circle:\n    pass\n"
 TYPINGISH = "class Helper:\n    pass\n"      # a user module whose *name* starts with `typing`: not the typing module
 BODY = "\n\ndef area(c, k=1):\n    return k\n\n\ndef make():\n    return None\n\n\nRESULT = area(None)\n"
 VERBATIM = {"parenthesised-with-comments"}
@@ -22,6 +22,8 @@ SOURCES = {
     "docstring": '"""Module docstring."""\n' + BODY,
     # layout and comments inside a source import statement from which nothing moves must survive (the statement "stays where it was", as written)
     "parenthesised-with-comments": "from os.path import (\n    join,  # noqa: F401\n    split,  # type: ignore\n)\nimport os, sys  # both needed\nimport shapes16\n" + BODY + "\nSIDE2 = shapes16.SIDE\n",
+    # the name the stub imports is already bound in the source, to a class of another module
+    "name-bound-to-other-module": "from other16 import Circle\n" + BODY + "\nKEEP = Circle\n",
     "imports-top": "import os\nimport shapes16\n" + BODY + "\nSIDE2 = shapes16.SIDE\n",
     "from-import": "from shapes16 import Square\n" + BODY + "\nSQ = Square\n",
     "alias": "from shapes16 import Circle as C\n" + BODY + "\nALIASED = C\n",
@@ -128,6 +130,10 @@ def run(ctx):
                     problems.append("newly needed import `%s` is missing" % stmt)
                 elif not all(tc for tc, _ in places):
                     problems.append("new annotation-only import `%s` is not under TYPE_CHECKING" % stmt)
+            # nothing else appears at module level at run time: an import neither the source made nor typing / mypy_extensions / __future__ provide
+            new_runtime = [s_ for s_, tc_, d_ in after if d_ == 0 and not tc_ and s_ not in src_imports and not s_.startswith(("from typing import", "import typing", "from mypy_extensions", "from __future__"))]
+            if new_runtime:
+                problems.append("new run-time import at module level: %s" % new_runtime)
             # the module still imports and behaves
             ns = {"__name__": "c16_result"}
             try:
@@ -140,6 +146,12 @@ def run(ctx):
                 H.violation("monkeytype.cli:get_newly_imported_items", "C16-local-or-guarded-import-readded-unconfined|%s" % sn,
                             "an import the source makes only inside a function / under an existing TYPE_CHECKING guard is added once more at module level, at run time, by libcst - and is not confined (not new for MonkeyType)",
                             {"source": sn, "stub": tn}, {"readded": readded, "result_head": out[:400]})
+                continue
+            if len(problems) == 1 and new_runtime and all(s_.startswith("import ") and any(si.startswith("from %s import" % s_[7:]) for si in stub_imports) for s_ in new_runtime):
+                H.violation("monkeytype.cli:get_newly_imported_items", "C16-ambiguous-name-module-import-unconfined|%s" % sn,
+                            "the name the stub imports is bound more than once in the source (to another module's class, in a function, in an except branch): libcst annotates with the qualified name and adds `import <module>`; "
+                            "MonkeyType looks for the stub's `from <module> import <name>` instead and leaves the new `import <module>` at module level, at run time",
+                            {"source": sn, "stub": tn}, {"new_runtime_imports": new_runtime, "result_head": out[:400]})
                 continue
             if problems:
                 if any("TypedDict" in p_ for p_ in problems) and tn == "typed-dict":
